@@ -357,7 +357,7 @@ func checkVersions(w *W, cands []string, repeats int) {
 		}
 		w.DistinctS("codes", "version/"+label)
 	}
-	others := append([]string{"+3.0", "+3.1", "003.1", "3.+1", "3.01", "３.１", "3.1\x00", "\x003.1", "3", "3.", "3.2", "3.00", "3.10", "03.1", "2.0", "4.0", "1.0", "3.1 ", " 3.1", "3,1", "v3.1", "unknown", "3.1.0", "٣.١"}, cands...)
+	others := append([]string{"+3.0", "+3.1", "003.1", "3.+1", "3.01", "３.１", "3.1\x00", "\x003.1", "3", "3.", "3.2", "3.00", "3.10", "03.1", "2.0", "4.0", "1.0", "3.1 ", " 3.1", "3,1", "v3.1", "unknown", "3.1.0", "٣.١"}, append(append([]string(nil), numericVersionLabels...), cands...)...)
 	for _, o := range others {
 		if o == "3.0" || o == "3.1" {
 			continue
